@@ -25,6 +25,8 @@ type c01World struct {
 	// interleavings left: a peer message may be handled between the block processor's pop of a
 	// block and its ProcessBlock call (needs the property's source rewrite that inserts the point)
 	interleave int
+	// the configured start block is never seen: the node only records headers (no block bodies)
+	headersOnly bool
 	// the in-sync notification was delivered at an instant when the node did not hold every
 	// block announced so far (observed inside the notification, not after the step)
 	inSyncEarly bool
@@ -129,6 +131,9 @@ func (w *c01World) restart() {
 		return
 	}
 	w.k = k2
+	if w.headersOnly {
+		vkHeadersOnly(w.ctx, k2)
+	}
 	w.k.node.state.SetVersionReceived()
 	w.k.node.state.MarkConnected()
 	w.peer.toNode = nil
